@@ -18,7 +18,7 @@ def theorems():
 
 
 def make_case(rng, thorough=False):
-    c = circ.rand_circuit(rng, n_gates=rng.randint(1, 20 if not thorough else 50), style='v')
+    c = circ.rand_circuit(rng, n_gates=rng.randint(1, 20 if not thorough else 50), style='v', p_const=rng.choice([0.04, 0.04, 0.2]))
     return {'circuit': base64.b64encode(pickle.dumps(c)).decode(), 'm': rng.choice([2, 4, 8]), 'strip': rng.random() < 0.3,
             'reuse': rng.random() < 0.4, 'sseed': rng.randint(0, 2**31 - 1), 'pick': rng.random(), 'sims': rng.choice([3, 8, 13])}
 
@@ -49,9 +49,13 @@ def eval_case(case):
     ref, ref_out = sim_run(c, m, sims, stim, case['strip'], False)
     exp_calls = [int(r[1]) for r in np.array(ref.ops) if int(r[1]) < len(c.lines)]
     # (a) recording callback
+    class Rec(list):        # a callable that is FALSY until it has been called (an empty list): still a callback
+        def __call__(self, line, v): self.append((getattr(line, 'index', line), tuple(v.shape), v.copy()))
     log = []
-    def rec(line, v):
+    def rec_fn(line, v):
         log.append((getattr(line, 'index', line), tuple(v.shape), v.copy()))
+    rec = rec_fn
+    if case['pick'] < 0.4: log = rec = Rec()
     ls, out = sim_run(c, m, sims, stim, case['strip'], case['reuse'], rec)
     got_calls = [l[0] for l in log]
     if got_calls != exp_calls:
@@ -67,6 +71,8 @@ def eval_case(case):
     if not exp_calls: return True, {'skipped': 'no evaluated line'}, None
     # (c) overwrite line x with random values V
     x = exp_calls[int(case['pick'] * len(exp_calls)) % len(exp_calls)]
+    consts = [l for l in exp_calls if c.lines[l].driver.kind.lower() in ('__const0__', '__const1__', 'tieh', 'tiel')]
+    if consts and int(case['pick'] * 1000) % 3 == 0: x = consts[int(case['pick'] * 7919) % len(consts)]    # overwrite a tie cell's line
     V = logic.mv_to_bp(rs.choice(dom, size=(1, sims)).astype(np.uint8))[0][:mdim]
     seen_before = {}
     def inj(line, v):
@@ -96,6 +102,13 @@ def eval_case(case):
     for li in exp_calls[:exp_calls.index(x)]:
         if not np.array_equal(ls2.c[ls2.c_locs[li]], ref.c[ref.c_locs[li]]):
             return False, {'clause': 'upstream-unchanged', 'injected': x, 'line': li}, {'unchanged': True}
+    # (d) the injection leaves nothing behind: a plain propagation on the SAME object afterwards is fault-free
+    ls2.s[0] = logic.mv_to_bp(stim); ls2.s_to_c()
+    with common.quiet(): ls2.c_prop()
+    ls2.c_to_s()
+    out3 = logic.bp_to_mv(ls2.s[1])[:, :sims]
+    if not np.array_equal(out3, ref_out):
+        return False, {'clause': 'injection-leaves-no-trace', 'injected': x}, {'results': 'those of the plain simulation'}
     return True, None, None
 
 
